@@ -534,6 +534,9 @@ def check_C06(tr):
             break
     bad += check_no_dup(tr)
     bad += check_fidelity(tr)
+    # "elements delivered before it stay valid": on a consuming kind the skip destroys only what nobody received
+    if tr.case.consuming() and not tr.case.has_op("get"):
+        bad += [b for b in check_C08(tr) if "moved out" in b]
     return bad
 
 
